@@ -13,6 +13,8 @@ def run(tier, seed, replay=None):
     N = core.NCPU
     q = tier == "quick"
     plans = [
+        ("xml-soup", ["xml", "--mode", "sink", "--gen", "text", "--n", 1500 if q else 20000], N),
+        ("xml-structured", ["xml", "--mode", "sink", "--n", 1500 if q else 20000], N),
         ("enum-families-k3", ["parse", "--mode", "enum", "--k", 3, "--pieces", 12 if q else 16], N),
         ("selectedcontent-directed", ["parse", "--mode", "selectedcontent", "--k", 3 if q else 4], N),
         ("random", ["parse", "--mode", "random", "--n", 1500 if q else 20000, "--maxpieces", 14], N),
